@@ -364,6 +364,7 @@ func (x *sqlExec) runSelectCore(s *selectStmt, outer *scope) (*relation, error) 
 			}
 			var next []joinedRow
 			for _, l := range rows {
+				matched := false
 				for _, r := range jr.rows {
 					cand := joinedRow{binds: append(append([]*binding{}, l.binds...), bindingOf(jr, r)), srcs: append(append([]*rowKey{}, l.srcs...), r.src)}
 					ok, err := x.eval(j.on, &scope{binds: cand.binds, outer: outer})
@@ -372,7 +373,13 @@ func (x *sqlExec) runSelectCore(s *selectStmt, outer *scope) (*relation, error) 
 					}
 					if isTrue(ok) {
 						next = append(next, cand)
+						matched = true
 					}
+				}
+				if j.left && !matched {
+					// LEFT JOIN: the left row survives with NULLs on the right
+					nulls := &binding{alias: jr.name, table: jr.table, cols: jr.cols, vals: make([]Val, len(jr.cols))}
+					next = append(next, joinedRow{binds: append(append([]*binding{}, l.binds...), nulls), srcs: append(append([]*rowKey{}, l.srcs...), nil)})
 				}
 			}
 			rows = next
@@ -393,6 +400,17 @@ func (x *sqlExec) runSelectCore(s *selectStmt, outer *scope) (*relation, error) 
 	}
 	for _, r := range rows {
 		x.auditRows(r.srcs)
+	}
+	grouped := len(s.groupBy) > 0
+	if !grouped {
+		for _, it := range s.cols {
+			if _, star := it.e.(*eStar); !star && hasAggregate(it.e) {
+				grouped = true
+			}
+		}
+	}
+	if grouped {
+		return x.runGrouped(s, rows, outer)
 	}
 	if len(s.order) > 0 {
 		type keyed struct {
@@ -444,6 +462,27 @@ func (x *sqlExec) runSelectCore(s *selectStmt, outer *scope) (*relation, error) 
 		for i := range ks {
 			rows[i] = ks[i].r
 		}
+	}
+	if len(s.distinctOn) > 0 {
+		// DISTINCT ON (...): the first row of each set of rows equal on the expressions, in the ORDER BY order
+		seen := map[string]bool{}
+		var kept []joinedRow
+		for _, r := range rows {
+			var key []string
+			for _, e := range s.distinctOn {
+				v, err := x.eval(e, &scope{binds: r.binds, outer: outer})
+				if err != nil {
+					return nil, err
+				}
+				key = append(key, fmt.Sprintf("%T:%v", v, driverValue(v)))
+			}
+			k := strings.Join(key, "\x00")
+			if !seen[k] {
+				seen[k] = true
+				kept = append(kept, r)
+			}
+		}
+		rows = kept
 	}
 	if s.offset > 0 {
 		if s.offset >= len(rows) {
@@ -1232,3 +1271,147 @@ func stmtTakesLocks(stmt any) bool {
 }
 
 var _ = strings.ToLower
+
+// runGrouped evaluates a select with GROUP BY and / or aggregates in its select list: the rows (already joined and
+// filtered) are partitioned on the GROUP BY expressions - one single group without GROUP BY, present even when
+// there is no row - and the select list, then ORDER BY, are evaluated once per group.
+func (x *sqlExec) runGrouped(s *selectStmt, rows []joinedRow, outer *scope) (*relation, error) {
+	if s.forUpdate || len(s.distinctOn) > 0 {
+		return nil, unsupported("FOR UPDATE / DISTINCT ON with aggregation")
+	}
+	type group struct {
+		rows []joinedRow
+	}
+	var groups []*group
+	if len(s.groupBy) == 0 {
+		groups = []*group{{rows: rows}}
+	} else {
+		idx := map[string]*group{}
+		for _, r := range rows {
+			var key []string
+			for _, e := range s.groupBy {
+				v, err := x.eval(e, &scope{binds: r.binds, outer: outer})
+				if err != nil {
+					return nil, err
+				}
+				key = append(key, fmt.Sprintf("%T:%v", v, driverValue(v)))
+			}
+			k := strings.Join(key, "\x00")
+			g := idx[k]
+			if g == nil {
+				g = &group{}
+				idx[k] = g
+				groups = append(groups, g)
+			}
+			g.rows = append(g.rows, r)
+		}
+	}
+	type outRow struct {
+		vals []Val
+		keys []Val
+	}
+	var outs []outRow
+	out := &relation{}
+	for gi, g := range groups {
+		sc := &scope{outer: outer, group: g.rows}
+		if g.rows == nil {
+			sc.group = []joinedRow{}
+		}
+		if len(g.rows) > 0 {
+			sc.binds = g.rows[0].binds
+		}
+		var vals []Val
+		var cols []string
+		for _, it := range s.cols {
+			if _, star := it.e.(*eStar); star {
+				return nil, unsupported("* in a grouped select list")
+			}
+			v, err := x.eval(it.e, sc)
+			if err != nil {
+				return nil, err
+			}
+			vals = append(vals, v)
+			cols = append(cols, outputName(it))
+		}
+		if gi == 0 {
+			out.cols = cols
+		}
+		o := outRow{vals: vals}
+		for _, oi := range s.order {
+			// ORDER BY may name an output column
+			var v Val
+			var err error
+			if c, ok := oi.e.(*eCol); ok && c.qual == "" {
+				found := false
+				for i, name := range cols {
+					if name == c.name {
+						v, found = vals[i], true
+						break
+					}
+				}
+				if !found {
+					v, err = x.eval(oi.e, sc)
+				}
+			} else {
+				v, err = x.eval(oi.e, sc)
+			}
+			if err != nil {
+				return nil, err
+			}
+			o.keys = append(o.keys, v)
+		}
+		outs = append(outs, o)
+	}
+	if len(groups) == 0 {
+		for _, it := range s.cols {
+			out.cols = append(out.cols, outputName(it))
+		}
+	}
+	if len(s.order) > 0 {
+		var sortErr error
+		sort.SliceStable(outs, func(a, b int) bool {
+			for i, o := range s.order {
+				va, vb := outs[a].keys[i], outs[b].keys[i]
+				var c int
+				switch {
+				case va == nil && vb == nil:
+					c = 0
+				case va == nil:
+					c = 1
+				case vb == nil:
+					c = -1
+				default:
+					var err error
+					c, err = compareVals(va, vb)
+					if err != nil {
+						sortErr = err
+					}
+				}
+				if o.desc {
+					c = -c
+				}
+				if c != 0 {
+					return c < 0
+				}
+			}
+			return false
+		})
+		if sortErr != nil {
+			return nil, sortErr
+		}
+	}
+	if s.offset > 0 {
+		if s.offset >= len(outs) {
+			outs = nil
+		} else {
+			outs = outs[s.offset:]
+		}
+	}
+	if s.limit != nil && len(outs) > *s.limit {
+		outs = outs[:*s.limit]
+	}
+	for _, o := range outs {
+		out.rows = append(out.rows, relRow{vals: o.vals})
+	}
+	return out, nil
+}
